@@ -1,10 +1,10 @@
-\* MIXED GRANULARITY among the selected records: <= 2 records of 1 / 4 units at 0, 1, 3, 6 in units of 1, 2, 4 bytes x windows
+\* MIXED GRANULARITY among the selected records: <= 2 records of 4 units at 0, 1, 3, 6 in units of 1, 2, 4 bytes x windows
 \* starting / ending strictly inside a record of either unit, at its edges, outside, automatic / half-automatic x ALL / ODD / WORD1
 CONSTANTS
   Dev = {}
   MaxRecs = 2
   Starts = {0, 1, 3, 6}
-  UnitLens = {1, 4}
+  UnitLens = {4}
   GranSet = {1, 2, 4}
   EntryAddrs = {}
   Offsets = {}
